@@ -351,5 +351,7 @@ def obligations(tier, seed):
             tasks.append(dict(name=f"n{n}", func="c15:ob_config", kwargs=dict(n=n, bs_list=sorted({1, 2, 3, n, n + 2}), val_props=[0.1, 0.25, 0.5, 0.75, 0.9], epochs=2), cost=n))
     else:
         for n in range(2, 15):
-            tasks.append(dict(name=f"n{n}", func="c15:ob_config", kwargs=dict(n=n, bs_list=list(range(1, n + 3)), val_props=[0.1, 0.25, 0.3, 0.5, 0.7, 0.75, 0.9], epochs=3), cost=n * n))
+            # every batch size up to n + 2 for n <= 9; for larger n the sizes around the divisors / remainders (1, 2, 3, 5, n // 2, n - 1, n, n + 2)
+            bss = list(range(1, n + 3)) if n <= 9 else sorted({1, 2, 3, 5, n // 2, n - 1, n, n + 2})
+            tasks.append(dict(name=f"n{n}", func="c15:ob_config", kwargs=dict(n=n, bs_list=bss, val_props=[0.1, 0.25, 0.3, 0.5, 0.7, 0.75, 0.9], epochs=3 if n <= 9 else 2), cost=n * n))
     return tasks
